@@ -3,7 +3,7 @@
    (Finding D9 - a FAILED lazy parse leaves a shortened BytesMut behind - is outside the model: force_cont /
    force_table return an error and no new state; see the header of Mp4/BoxProofsLazy.v.) *)
 From Coq Require Import List NArith Bool.
-From MS Require Import Base.Bytes Base.Outcome Mp4.Header Mp4.Box Mp4.BoxProofsLazy.
+From MS Require Import Base.Bytes Base.Outcome Mp4.Header Mp4.Box Mp4.BoxLazy Mp4.BoxOps Mp4.BoxProofsLazy Mp4.BoxOpsProofs.
 Open Scope N_scope.
 
 (* for every list of boxes obtained by Boxes::parse and every sequence of successful forcings (lazy parses of
@@ -41,3 +41,13 @@ Theorem C16_set_keeps_length : forall (f g : N -> res N) (kids kids' : list node
   each_trak kids (shift_table f g) = Ok (kids', l) -> length (put_nodes kids') = length (put_nodes kids).
 Proof. exact each_trak_shift_length. Qed.
 Print Assumptions C16_set_keeps_length.
+
+(* the call sequences of the correspondence batch (kind `lazy`: for each step, MoovBox::traks() up to the i-th trak and
+   the first k accessors of co_mut on it): whatever sequence, the tree after the last successful call serialises to
+   the payload MoovBox::parse consumed and its encoded length is the number of bytes written *)
+Theorem C16_lazy_ops_roundtrip : forall (p : bytes) (kids : list node) (ops : list (nat * nat)),
+  parse_moov p = Ok kids ->
+  put_nodes (fst (run_ops ops 0 kids)) = p /\
+  N.of_nat (length (put_nodes (fst (run_ops ops 0 kids)))) = nodes_encoded_len (fst (run_ops ops 0 kids)).
+Proof. exact run_ops_roundtrip. Qed.
+Print Assumptions C16_lazy_ops_roundtrip.
